@@ -236,6 +236,10 @@ func (c *FCtx) loadGlobal(st *State, v *types.Var) Value {
 			if f := c.rangeFact(lt, x); !f.IsTrue() {
 				facts = append(facts, f)
 			}
+			if s == SInt && !isIntType(lt) {
+				// references held by package-level variables were allocated before the function was entered
+				facts = append(facts, ILt(x, Var("$alloc@pre", SInt)), IGe(x, IntC(0)))
+			}
 		}
 		return x
 	}, nil)
